@@ -81,6 +81,31 @@ def directed_cases(tier):
                     "edits": [{"edit": e, "jobs": rng.choice([1, 2]), "sched_seed": rng.getrandbits(32), "repeat": i == 0}
                               for i, e in enumerate(edits)],
                     "directed": "checkout-only edits of a deterministic checkout"})
+    # content of a *tool* changes (source edit below the tool provider, no Variant-Id changes):
+    # every step that uses the tool has to re-run
+    for k in range(4 if tier == "thorough" else 2):
+        gen = projgen._leaf(rng); gen["src"] = "import"
+        gen["provideTools"] = {"tool_gen": {"path": ".", "libs": []}}
+        lib = projgen._leaf(rng)
+        user = projgen._leaf(rng)
+        user["depends"] = [{"name": "gen", "use": ["tools"]}, {"name": "lib", "use": ["result", "deps"]}]
+        user["buildTools" if k % 2 == 0 else "packageTools"] = ["tool_gen"]
+        root = projgen._leaf(rng)
+        root["depends"] = [{"name": "user", "use": ["result", "deps"]}]
+        if k >= 2:
+            root["depends"].insert(0, {"name": "gen", "use": ["tools"], "forward": True})
+            user["depends"] = user["depends"][1:]
+        model = {"recipes": {"root": root, "user": user, "gen": gen, "lib": lib}, "classes": {}, "default_env": {},
+                 "sources": {"src/gen/f0.txt": "gen-file0-%x\n" % rng.getrandbits(16), "src/gen/f1.txt": "gen-file1\n"},
+                 "order": ["root", "user", "gen", "lib"], "features": ["directed-tool-content"]}
+        edits = [{"kind": "src_modify", "path": "src/gen/f0.txt", "content": "mod-%x\n" % rng.getrandbits(24), "same_size": False},
+                 {"kind": "src_add", "path": "src/gen/n1.txt", "content": "new-%x\n" % rng.getrandbits(24)},
+                 {"kind": "src_delete", "path": "src/gen/f1.txt"},
+                 {"kind": "revert", "to": 1}]
+        out.append({"model": model, "develop": k % 2 == 0 or k >= 2, "jobs0": 1, "seed0": rng.getrandbits(32),
+                    "edits": [{"edit": e, "jobs": rng.choice([1, 2]), "sched_seed": rng.getrandbits(32), "repeat": i == 1}
+                              for i, e in enumerate(edits)],
+                    "directed": "content of a tool changes"})
     return out
 
 def run_case(case):
